@@ -208,3 +208,38 @@ func VfC05_History() {
 	vfAssert("C05.history.earlier-accepted", errE == nil)
 	vfAssert("C05.history.undefined-is-still-error", vfAnd(err != nil, m == nil))
 }
+
+// VfC05_SpellingClasses: a numbered entity %N / @N and a named entity whose
+// name is the digit string "N" are different entities (LLVM: `%7` is numbered
+// type 7, `%"7"` the type named "7"; calibrated with llvm-as 14).  Each
+// template defines only one of the two spellings and uses the other, with both
+// digits chosen by the solver: the use is undefined whatever the digits are,
+// so the input must be rejected, never bound to the other spelling's entity.
+//
+//vf:unwind 300
+func VfC05_SpellingClasses() {
+	d := hLetterIn("def", '0', '9')
+	u := hLetterIn("use", '0', '9')
+	src := ""
+	switch vfChoice("template", 6) {
+	case 0:
+		src = "%" + d + " = type { i32 }\n@g = global %\"" + u + "\" zeroinitializer\n"
+	case 1:
+		src = "%\"" + d + "\" = type { i32 }\n@g = global %" + u + " zeroinitializer\n"
+	case 2:
+		vfAssume(d == "0") // unnamed globals are numbered from @0
+		src = "@0 = global i32 1\n@g = global i32* @\"" + u + "\"\n"
+	case 3:
+		src = "@\"" + d + "\" = global i32 1\n@g = global i32* @" + u + "\n"
+	case 4:
+		vfAssume(d == "0")
+		src = "define i32 @f(i32) {\nentry:\n\tret i32 %\"" + u + "\"\n}\n"
+	default:
+		src = "define void @f() {\n\"" + d + "\":\n\tbr label %" + u + "\n}\n"
+	}
+	vfPanicOK(false)
+	m, err := ParseString("t.ll", src)
+	vfReach("C05.spelling-classes")
+	vfObserveStr("src", src)
+	vfAssert("C05.spelling-classes.other-spelling-is-undefined", vfAnd(err != nil, m == nil))
+}
